@@ -294,6 +294,29 @@ func ruleTransactionalDecls(c *Ctx, rule string) {
 					if cal := calleeOf(info, x); cal != nil && (strings.Contains(cal.Name(), "RemoveMethod") || strings.Contains(cal.Name(), "restore") || strings.Contains(cal.Name(), "Rollback")) {
 						restores = true
 					}
+					// re-publishing a definition saved before the mutation through the same registry call (methods:
+					// AddMethod(name, oldtype) replaces the method being redefined by its previous type)
+					if cal := calleeOf(info, x); cal != nil && mutatorCalls[funcFullName(cal)] {
+						for _, a := range x.Args {
+							if id := identOf(a); id != nil {
+								if o := info.Uses[id]; o != nil && o.Pos() < mpos && o.Pos() > fd.Body.Pos() {
+									// the registry call re-creates the slot only: the saved value must be stored back as well
+									ast.Inspect(fl.Body, func(k ast.Node) bool {
+										if as, ok := k.(*ast.AssignStmt); ok && len(as.Lhs) == 1 && len(as.Rhs) == 1 {
+											if _, ok := unparen(as.Lhs[0]).(*ast.IndexExpr); ok {
+												if rid := identOf(as.Rhs[0]); rid != nil {
+													if ro := info.Uses[rid]; ro != nil && ro.Pos() < mpos && ro.Pos() > fd.Body.Pos() {
+														restores = true
+													}
+												}
+											}
+										}
+										return true
+									})
+								}
+							}
+						}
+					}
 				case *ast.IfStmt:
 					ast.Inspect(x.Cond, func(k ast.Node) bool {
 						if id, ok := k.(*ast.Ident); ok {
